@@ -1361,6 +1361,7 @@ func TestC20(t *testing.T) {
 	e.feeSweep()
 	e.hostileAnte()
 	e.anteRawSweep(t)
+	e.nodeConfigSweep(t)
 	out.Stats.Extra["violation_counts"] = e.seenV
 	if len(e.dep) > 0 {
 		out.Stats.Extra["dependency_type_panics (SDK/IBC/ethermint message code, outside fx-core)"] = e.dep
